@@ -106,6 +106,10 @@ pub fn run(a: &Args) -> Report {
                 Outcome::Panic(_) => errs += 1, // panics are C09's business
             }
             rep.count("commands", 1);
+            if eg.num_tuples() > 6000 {
+                rep.count("histories_truncated_large_db", 1);
+                break;
+            }
             let bad = invariants(&eg);
             rep.count("inspections", 1);
             if !bad.is_empty() {
